@@ -117,6 +117,19 @@ theorem Group_isNullItems_congr (cfg : Cfg) (r r' : FileS → Code → Bool) (g 
   unfold Gen.Src.Group_isNullItems
   rw [any_congr_mem _ _ items (fun c hc => by rw [h c hc])]
 
+theorem foldl_congr_mem {σ α} (step step' : σ → α → σ) : ∀ (xs : List α) (s : σ),
+    (∀ x ∈ xs, ∀ s, step s x = step' s x) → List.foldl step s xs = List.foldl step' s xs
+  | [], _, _ => rfl
+  | x :: xs, s, h => by
+    rw [List.foldl, List.foldl, h x (by simp) s]
+    exact foldl_congr_mem step step' xs _ (fun y hy => h y (by simp [hy]))
+
+theorem Group_countItems_congr (cfg : Cfg) (r r' : FileS → Code → Bool) (g : GInfo) (items : List Code) (f : FileS)
+    (h : ∀ c ∈ items, r f c = r' f c) :
+    Gen.Src.Group_countItems cfg r g items f = Gen.Src.Group_countItems cfg r' g items f := by
+  unfold Gen.Src.Group_countItems
+  exact foldl_congr_mem _ _ items _ (fun c hc n => by simp only [h c hc])
+
 theorem Group_isNull_congr (cfg : Cfg) (r r' : FileS → Code → Bool) (g : GInfo) (items : List Code) (f : FileS)
     (h : ∀ c ∈ items, r f c = r' f c) :
     Gen.Src.Group_isNull cfg r g items f = Gen.Src.Group_isNull cfg r' g items f := by
@@ -233,12 +246,12 @@ theorem Statement_render_congr (cfg : Cfg) (r : Go.Rec) (S : Code → Prop) (ha 
 
 /-! ### Group.renderItems, Group.render -/
 
-def itemStepR (r : Go.Rec) (g : GInfo) (big : Bool) (st : FileS × Bool × Str) (c : Code) :
+def itemStepR (r : Go.Rec) (g : GInfo) (big : FileS → Bool) (st : FileS × Bool × Str) (c : Code) :
     Option (FileS × Bool × Str) :=
   let f0 := if Go.isToken c && (Go.tokTyp c == Go.TokTyp.packageToken)
     then (r.register st.1 (Go.tokContent c)).2 else st.1
   if Go.isNil c || r.null f0 c then some (f0, st.2.1, st.2.2)
-  else if (g.name == b!"values") && (Go.isDict c && big) then none
+  else if (g.name == b!"values") && (Go.isDict c && big f0) then none
   else
     match r.render f0
       (if g.multi then (if !st.2.1 && g.sep != ([] : Str) then st.2.2 ++ g.sep else st.2.2) ++ b!"\n"
@@ -248,7 +261,8 @@ def itemStepR (r : Go.Rec) (g : GInfo) (big : Bool) (st : FileS × Bool × Str) 
 
 theorem Group_renderItems_shapeR (cfg : Cfg) (r : Go.Rec) (f : FileS) (g : GInfo) (items : List Code) (w : Str) :
     Gen.Src.Group_renderItems cfg r g items f w =
-      itemFin (Go.foldOpt (itemStepR r g (decide ((Int.ofNat items.length) > (1 : Int)))) (f, true, w) items) := rfl
+      itemFin (Go.foldOpt (itemStepR r g
+        (fun f' => decide (Gen.Src.Group_countItems cfg r.null g items f' > (1 : Int)))) (f, true, w) items) := rfl
 
 theorem Group_renderItems_congr (cfg : Cfg) (r : Go.Rec) (S : Code → Prop) (ha : Agrees cfg r S)
     (g : GInfo) (items : List Code) (hS : ∀ c ∈ items, S c) (f : FileS) (hg : Good cfg f) (w : Str) :
@@ -259,7 +273,8 @@ theorem Group_renderItems_congr (cfg : Cfg) (r : Go.Rec) (S : Code → Prop) (ha
   · exact hg
   · intro c hc st hP
     have hg0 := good_of_ext hP (preReg_ext cfg st.1 hP c)
-    simp only [itemStepR, ha.register, modelRec_register, preReg_eq, ha.null c (hS c hc), modelRec_null]
+    simp only [itemStepR, ha.register, modelRec_register, preReg_eq, ha.null c (hS c hc), modelRec_null,
+      Group_countItems_congr cfg r.null (modelRec cfg).null g items _ (fun c' hc' => ha.null c' (hS c' hc') _)]
     by_cases hn : isNull (preReg cfg st.1 c).np c = true
     · simp only [hn, Bool.or_true, if_true]
     · have hn' : isNull (preReg cfg st.1 c).np c = false := by simpa using hn
